@@ -200,20 +200,913 @@ Section prims.
   Proof.
     induction cs as [|c cs IH]; intros Hnd; simpl.
     - destruct (decide _) as [[_ Hin]|]; [set_solver|done].
-    - apply NoDup_cons in Hnd as [Hc Hnd]. rewrite get_link_send, IH by done.
-      destruct (decide ((0, c) = (a, b))) as [Heq|Hne].
-      + injection Heq as <- <-.
-        rewrite decide_False by (intros [_ ?]; done).
-        rewrite decide_True by (split; [done|set_solver]). done.
-      + destruct (decide (a = 0 /\ b ∈ cs)) as [[-> Hin]|Hn].
-        * rewrite decide_True by (split; [done|set_solver]). done.
-        * rewrite decide_False; [done|]. intros [-> Hin]. apply Hn. split; [done|].
-          apply elem_of_cons in Hin as [->|]; [done|done].
+    - apply NoDup_cons in Hnd as [Hc Hnd]. rewrite get_link_send.
+      destruct (decide ((0 : peer, c) = (a, b))) as [Heq|Hne].
+      + injection Heq as <- <-. rewrite IH by done.
+        repeat case_decide; try done; exfalso; set_solver.
+      + rewrite IH by done.
+        repeat case_decide; try done; exfalso.
+        * set_solver.
+        * destruct_and!. subst a. set_solver.
   Qed.
 End prims.
 
 Lemma others_spec s c x : x ∈ others s c <-> x <> c /\ x ∈ conn s.
-Proof. unfold others. apply elem_of_list_filter. Qed.
+Proof. unfold others. rewrite elem_of_list_filter. done. Qed.
 
 Lemma others_NoDup s c : NoDup (conn s) -> NoDup (others s c).
 Proof. apply NoDup_filter. Qed.
+
+(* ================================================================================================
+   3. The steps, seen through get_ents / get_link / conn / synced / used
+   ================================================================================================ *)
+
+Lemma peer_on_spec s p : peer_on s p = true <-> p = 0 \/ p ∈ conn s.
+Proof.
+  unfold peer_on. rewrite orb_true_iff, !bool_decide_eq_true. done.
+Qed.
+
+Lemma get_link_announce s p m a b :
+  NoDup (conn s) ->
+  get_link (announce s p m) a b =
+    if decide (p = 0)
+    then (if decide (a = 0 /\ b ∈ conn s) then get_link s a b ++ [m] else get_link s a b)
+    else (if decide ((p, 0) = (a, b)) then get_link s a b ++ [m] else get_link s a b).
+Proof.
+  intros Hnd. unfold announce. destruct (decide (p = 0)) as [->|Hp].
+  - by apply get_link_bcast.
+  - rewrite get_link_send. repeat case_decide; simplify_eq; done.
+Qed.
+
+Lemma announce_fields s p m :
+  ents (announce s p m) = ents s /\ conn (announce s p m) = conn s /\
+  synced (announce s p m) = synced s /\ used (announce s p m) = used s.
+Proof.
+  unfold announce. destruct (decide (p = 0)).
+  - destruct (bcast_fields s (conn s) m) as (? & ? & ? & ? & _). done.
+  - done.
+Qed.
+
+(* what a client does to its own list *)
+Definition cl_apply (m : emsg) (l : list uuid) : list uuid :=
+  match m with
+  | ESpawn u => if bool_decide (u ∈ l) then l else u :: l
+  | EDelete u => remove1 u l
+  | _ => l
+  end.
+
+Definition same_tables (s s' : astate) : Prop :=
+  conn s' = conn s /\ synced s' = synced s /\ used s' = used s.
+
+(* the message announced by an operation of p *)
+Definition op_links (s s' : astate) (p : peer) (m : emsg) : Prop :=
+  forall a b, get_link s' a b =
+    if decide (p = 0)
+    then (if decide (a = 0 /\ b ∈ conn s) then get_link s a b ++ [m] else get_link s a b)
+    else (if decide ((p, 0) = (a, b)) then get_link s a b ++ [m] else get_link s a b).
+
+(* the host pops m from (c,0) and repeats it to everybody but c *)
+Definition relay_links (s s' : astate) (c : peer) (q : list emsg) (m : emsg) : Prop :=
+  forall a b, get_link s' a b =
+    if decide ((a, b) = (c, 0)) then q
+    else if decide (a = 0 /\ b <> c /\ b ∈ conn s) then get_link s a b ++ [m]
+    else get_link s a b.
+
+Definition pop_links (s s' : astate) (a0 b0 : peer) (q : list emsg) : Prop :=
+  forall a b, get_link s' a b = if decide ((a, b) = (a0, b0)) then q else get_link s a b.
+
+Definition ents_upd (s s' : astate) (p : peer) (l : list uuid) : Prop :=
+  forall p', get_ents s' p' = if decide (p' = p) then l else get_ents s p'.
+
+Inductive astep (s s' : astate) : event -> Prop :=
+| AS_spawn p u :
+    p = 0 \/ p ∈ conn s -> u ∉ used s ->
+    ents_upd s s' p (u :: get_ents s p) -> op_links s s' p (ESpawn u) ->
+    conn s' = conn s -> synced s' = synced s -> used s' = u :: used s ->
+    astep s s' (EvSpawn p u)
+| AS_despawn p u :
+    p = 0 \/ p ∈ conn s -> u ∈ get_ents s p ->
+    ents_upd s s' p (remove1 u (get_ents s p)) -> op_links s s' p (EDelete u) ->
+    same_tables s s' ->
+    astep s s' (EvDespawn p u)
+| AS_host_spawn c u q :
+    c <> 0 -> get_link s c 0 = ESpawn u :: q ->
+    ents_upd s s' 0 (u :: get_ents s 0) -> relay_links s s' c q (ESpawn u) ->
+    same_tables s s' ->
+    astep s s' (EvDeliver c 0)
+| AS_host_delete c u q :
+    c <> 0 -> get_link s c 0 = EDelete u :: q ->
+    ents_upd s s' 0 (remove1 u (get_ents s 0)) -> relay_links s s' c q (EDelete u) ->
+    same_tables s s' ->
+    astep s s' (EvDeliver c 0)
+| AS_host_req c q :
+    c <> 0 -> get_link s c 0 = EReqInit :: q ->
+    (forall p, get_ents s' p = get_ents s p) ->
+    (forall a b, get_link s' a b =
+       if decide ((a, b) = (c, 0)) then q
+       else if decide ((a, b) = (0, c))
+            then get_link s 0 c ++ (ESpawn <$> get_ents s 0) ++ [EFinInit]
+            else get_link s a b) ->
+    conn s' = conn s -> synced s' = c :: synced s -> used s' = used s ->
+    astep s s' (EvDeliver c 0)
+| AS_host_fin c q :
+    c <> 0 -> get_link s c 0 = EFinInit :: q ->
+    (forall p, get_ents s' p = get_ents s p) -> pop_links s s' c 0 q ->
+    same_tables s s' ->
+    astep s s' (EvDeliver c 0)
+| AS_client c m q :
+    c <> 0 -> get_link s 0 c = m :: q ->
+    ents_upd s s' c (cl_apply m (get_ents s c)) -> pop_links s s' 0 c q ->
+    same_tables s s' ->
+    astep s s' (EvDeliver 0 c)
+| AS_connect c :
+    c <> 0 -> c ∉ conn s ->
+    (forall p, get_ents s' p = get_ents s p) ->
+    (forall a b, get_link s' a b =
+       if decide ((a, b) = (c, 0)) then get_link s c 0 ++ [EReqInit] else get_link s a b) ->
+    conn s' = c :: conn s -> synced s' = synced s -> used s' = used s ->
+    astep s s' (EvConnect c)
+| AS_leave c :
+    c ∈ conn s ->
+    (forall p, get_ents s' p = get_ents s p) ->
+    (forall a b, get_link s' a b =
+       if decide ((a, b) = (0, c) \/ (a, b) = (c, 0)) then [] else get_link s a b) ->
+    conn s' = filter (fun x => x <> c) (conn s) ->
+    synced s' = filter (fun x => x <> c) (synced s) -> used s' = used s ->
+    astep s s' (EvLeave c).
+
+Lemma step_astep s e s' : NoDup (conn s) -> step s e = Some s' -> astep s s' e.
+Proof.
+  intros Hnd Hstep. destruct e as [p u|p u|a b|c|c]; simpl in Hstep.
+  - destruct (peer_on s p) eqn:Hon; [|done].
+    destruct (bool_decide (u ∉ used s)) eqn:Hfresh; [|done].
+    simpl in Hstep. injection Hstep as <-.
+    apply peer_on_spec in Hon. apply bool_decide_eq_true in Hfresh.
+    set (s1 := add_used (set_ents s p (u :: get_ents s p)) u).
+    destruct (announce_fields s1 p (ESpawn u)) as (He & Hc & Hs & Hu).
+    apply AS_spawn; try done.
+    + intros p'. unfold get_ents at 1. rewrite He.
+      change (get_ents (set_ents s p (u :: get_ents s p)) p' =
+              if decide (p' = p) then u :: get_ents s p else get_ents s p').
+      rewrite get_ents_set_ents. repeat case_decide; simplify_eq; done.
+    + intros a b. rewrite get_link_announce by done. done.
+  - destruct (peer_on s p) eqn:Hon; [|done].
+    destruct (bool_decide (u ∈ get_ents s p)) eqn:Hin; [|done].
+    simpl in Hstep. injection Hstep as <-.
+    apply peer_on_spec in Hon. apply bool_decide_eq_true in Hin.
+    set (s1 := set_ents s p (remove1 u (get_ents s p))).
+    destruct (announce_fields s1 p (EDelete u)) as (He & Hc & Hs & Hu).
+    apply AS_despawn; try done.
+    + intros p'. unfold get_ents at 1. rewrite He.
+      change (get_ents s1 p' = if decide (p' = p) then remove1 u (get_ents s p) else get_ents s p').
+      unfold s1. rewrite get_ents_set_ents. repeat case_decide; simplify_eq; done.
+    + intros a b. rewrite get_link_announce by done. done.
+  - destruct (get_link s a b) as [|m q] eqn:Hl; [done|].
+    destruct (decide (b = 0)) as [->|Hb].
+    + destruct (decide (a = 0)) as [->|Ha]; [done|]. injection Hstep as <-.
+      set (s1 := set_link s a 0 q).
+      assert (Hl1 : forall a' b', get_link s1 a' b' =
+                if decide ((a', b') = (a, 0)) then q else get_link s a' b').
+      { intros a' b'. unfold s1. rewrite get_link_set_link. repeat case_decide; simplify_eq; done. }
+      destruct m as [u|u| |]; simpl.
+      * destruct (bcast_fields (set_ents s1 0 (u :: get_ents s1 0)) (others s1 a) (ESpawn u))
+          as (He & Hc & Hs & Hu & _).
+        eapply AS_host_spawn; try done.
+        -- intros p'. rewrite get_ents_bcast, get_ents_set_ents. repeat case_decide; simplify_eq; done.
+        -- intros a' b'. rewrite get_link_bcast by (by apply others_NoDup).
+           change (get_link (set_ents s1 0 (u :: get_ents s1 0)) a' b') with (get_link s1 a' b').
+           rewrite Hl1. destruct (decide ((a', b') = (a, 0))) as [Heq|Hne].
+           ++ injection Heq as -> ->. rewrite decide_False; [done|]. intros [? _]. done.
+           ++ destruct (decide (a' = 0 /\ b' ∈ others s1 a)) as [[-> Hin]|Hn].
+              ** apply others_spec in Hin. rewrite decide_True by done. done.
+              ** rewrite decide_False; [done|]. intros (-> & ? & ?). apply Hn. split; [done|].
+                 apply others_spec. done.
+      * destruct (bcast_fields (set_ents s1 0 (remove1 u (get_ents s1 0))) (others s1 a) (EDelete u))
+          as (He & Hc & Hs & Hu & _).
+        eapply AS_host_delete; try done.
+        -- intros p'. rewrite get_ents_bcast, get_ents_set_ents. repeat case_decide; simplify_eq; done.
+        -- intros a' b'. rewrite get_link_bcast by (by apply others_NoDup).
+           change (get_link (set_ents s1 0 (remove1 u (get_ents s1 0))) a' b') with (get_link s1 a' b').
+           rewrite Hl1. destruct (decide ((a', b') = (a, 0))) as [Heq|Hne].
+           ++ injection Heq as -> ->. rewrite decide_False; [done|]. intros [? _]. done.
+           ++ destruct (decide (a' = 0 /\ b' ∈ others s1 a)) as [[-> Hin]|Hn].
+              ** apply others_spec in Hin. rewrite decide_True by done. done.
+              ** rewrite decide_False; [done|]. intros (-> & ? & ?). apply Hn. split; [done|].
+                 apply others_spec. done.
+      * eapply AS_host_req; try done.
+        intros a' b'.
+        change (get_link (send s1 0 a ((ESpawn <$> get_ents s1 0) ++ [EFinInit])) a' b' = 
+                if decide ((a', b') = (a, 0)) then q
+                else if decide ((a', b') = (0, a))
+                     then get_link s 0 a ++ (ESpawn <$> get_ents s 0) ++ [EFinInit]
+                     else get_link s a' b').
+        rewrite get_link_send, !Hl1.
+        destruct (decide ((a', b') = (a, 0))) as [Heq|Hne].
+        -- injection Heq as -> ->. rewrite decide_False by congruence. done.
+        -- rewrite (decide_False (P := (0, a) = (a, 0))) by congruence.
+           repeat case_decide; simplify_eq; done.
+      * eapply AS_host_fin; try done; intros a' b'; apply Hl1.
+    + destruct (decide (a = 0)) as [->|Ha]; [|done]. injection Hstep as <-.
+      set (s1 := set_link s 0 b q).
+      assert (Hl1 : forall a' b', get_link s1 a' b' =
+                if decide ((a', b') = (0, b)) then q else get_link s a' b').
+      { intros a' b'. unfold s1. rewrite get_link_set_link. repeat case_decide; simplify_eq; done. }
+      eapply AS_client; try done.
+      * intros p'. destruct m as [u|u| |]; simpl.
+        -- change (get_ents s1 b) with (get_ents s b).
+           destruct (bool_decide (u ∈ get_ents s b)).
+           ++ change (get_ents s1 p') with (get_ents s p'). repeat case_decide; simplify_eq; done.
+           ++ rewrite get_ents_set_ents. repeat case_decide; simplify_eq; done.
+        -- rewrite get_ents_set_ents. change (get_ents s1 b) with (get_ents s b).
+           repeat case_decide; simplify_eq; done.
+        -- change (get_ents s1 p') with (get_ents s p'). repeat case_decide; simplify_eq; done.
+        -- change (get_ents s1 p') with (get_ents s p'). repeat case_decide; simplify_eq; done.
+      * intros a' b'. destruct m as [u|u| |]; simpl; try apply Hl1. destruct (bool_decide (u ∈ get_ents s1 b)); apply Hl1.
+      * destruct m as [u|u| |]; simpl; try done. destruct (bool_decide (u ∈ get_ents s1 b)); done.
+  - destruct (bool_decide (c <> 0)) eqn:Hc0; [|done].
+    destruct (bool_decide (c ∉ conn s)) eqn:Hcc; [|done].
+    simpl in Hstep. injection Hstep as <-.
+    apply bool_decide_eq_true in Hc0, Hcc.
+    apply AS_connect; try done.
+    intros a b. rewrite get_link_send.
+    change (get_link (set_conn s (c :: conn s) (synced s))) with (get_link s).
+    repeat case_decide; simplify_eq; done.
+  - destruct (bool_decide (c ∈ conn s)) eqn:Hcc; [|done].
+    injection Hstep as <-. apply bool_decide_eq_true in Hcc.
+    apply AS_leave; try done.
+    intros a b. rewrite get_link_drop. done.
+Qed.
+
+(* ================================================================================================
+   4. Structural invariant (holds on EVERY run) and uniqueness
+   ================================================================================================ *)
+
+Definition mentions (u : uuid) (q : list emsg) : Prop := ESpawn u ∈ q \/ EDelete u ∈ q.
+
+(* after a message about u, no (second) ESpawn u follows in the same queue *)
+Fixpoint okq (q : list emsg) : Prop :=
+  match q with
+  | [] => True
+  | m :: q' => (forall u, mentions u [m] -> ESpawn u ∉ q') /\ okq q'
+  end.
+
+(* "u is still travelling to the host from its creator o" *)
+Definition pa (s : astate) (o : peer) (u : uuid) : Prop :=
+  u ∉ get_ents s 0 /\
+  (forall c, ~ mentions u (get_link s 0 c)) /\
+  (forall c, c <> o -> u ∉ get_ents s c /\ ~ mentions u (get_link s c 0)) /\
+  (u ∈ get_ents s o \/ EDelete u ∈ get_link s o 0).
+
+Record sinv (s : astate) : Prop := {
+  s_nd_conn : NoDup (conn s);
+  s_host : 0 ∉ conn s;
+  s_sub : forall c, c ∈ synced s -> c ∈ conn s;
+  s_links : forall a b, get_link s a b <> [] -> (a = 0 /\ b ∈ conn s) \/ (b = 0 /\ a ∈ conn s);
+  s_used_e : forall p u, u ∈ get_ents s p -> u ∈ used s;
+  s_used_l : forall a b u, mentions u (get_link s a b) -> u ∈ used s;
+  s_nd_ents : forall p, NoDup (get_ents s p);
+  s_okq : forall c, okq (get_link s c 0);
+  s_req : forall c, EReqInit ∉ tail (get_link s c 0);
+  s_pa : forall o u, ESpawn u ∈ get_link s o 0 -> pa s o u;
+}.
+
+Ltac step_cases Hinv Hstep :=
+  let A := fresh "A" in
+  pose proof (step_astep _ _ _ (s_nd_conn _ Hinv) Hstep) as A;
+  destruct A as
+   [p u Hon Hfresh HE HL Hc Hs Hu
+   |p u Hon Hin HE HL (Hc & Hs & Hu)
+   |c u q Hc0 Hhd HE HL (Hc & Hs & Hu)
+   |c u q Hc0 Hhd HE HL (Hc & Hs & Hu)
+   |c q Hc0 Hhd HE HL Hc Hs Hu
+   |c q Hc0 Hhd HE HL (Hc & Hs & Hu)
+   |c m q Hc0 Hhd HE HL (Hc & Hs & Hu)
+   |c Hc0 Hnc HE HL Hc Hs Hu
+   |c Hcc HE HL Hc Hs Hu].
+
+Lemma link_nonempty_conn s c : sinv s -> c <> 0 -> get_link s c 0 <> [] -> c ∈ conn s.
+Proof.
+  intros Hinv Hc0 Hne. destruct (s_links _ Hinv _ _ Hne) as [[-> _]|[_ ?]]; done.
+Qed.
+
+Lemma link_nonempty_conn_down s c : sinv s -> c <> 0 -> get_link s 0 c <> [] -> c ∈ conn s.
+Proof.
+  intros Hinv Hc0 Hne. destruct (s_links _ Hinv _ _ Hne) as [[_ ?]|[-> _]]; done.
+Qed.
+
+Lemma link00 s : sinv s -> get_link s 0 0 = [].
+Proof.
+  intros Hinv. destruct (get_link s 0 0) eqn:Heq; [done|].
+  assert (Hne : get_link s 0 0 <> []) by (by rewrite Heq).
+  destruct (s_links _ Hinv _ _ Hne) as [[_ ?]|[_ ?]]; by destruct (s_host _ Hinv).
+Qed.
+
+Lemma sinv_tables s e s' :
+  sinv s -> step s e = Some s' ->
+  NoDup (conn s') /\ 0 ∉ conn s' /\ (forall c, c ∈ synced s' -> c ∈ conn s').
+Proof.
+  intros Hinv Hstep. pose proof (s_nd_conn _ Hinv) as Hnd. pose proof (s_host _ Hinv) as H0.
+  pose proof (s_sub _ Hinv) as Hsub.
+  step_cases Hinv Hstep; rewrite ?Hc, ?Hs; try done.
+  - (* req *) split; [done|]. split; [done|]. intros c' [->|Hin]%elem_of_cons; [|auto].
+    apply link_nonempty_conn; [done|done|]. by rewrite Hhd.
+  - (* connect *) split; [by apply NoDup_cons|]. split; [set_solver|]. set_solver.
+  - (* leave *) split; [by apply NoDup_filter|]. split.
+    + rewrite elem_of_list_filter. tauto.
+    + intros c'. rewrite !elem_of_list_filter. naive_solver.
+Qed.
+
+Lemma sinv_links s e s' :
+  sinv s -> step s e = Some s' ->
+  forall a b, get_link s' a b <> [] -> (a = 0 /\ b ∈ conn s') \/ (b = 0 /\ a ∈ conn s').
+Proof.
+  intros Hinv Hstep. pose proof (s_links _ Hinv) as Hl.
+  step_cases Hinv Hstep; intros a b; rewrite HL, ?Hc.
+  - repeat case_decide; simplify_eq; try (by auto). intros _. right. destruct Hon; [done|auto].
+  - repeat case_decide; simplify_eq; try (by auto). intros _. right. destruct Hon; [done|auto].
+  - repeat case_decide; simplify_eq; try (by auto); try (intros _; left; tauto).
+    intros _. right. split; [done|]. apply link_nonempty_conn; [done|done|by rewrite Hhd].
+  - repeat case_decide; simplify_eq; try (by auto); try (intros _; left; tauto).
+    intros _. right. split; [done|]. apply link_nonempty_conn; [done|done|by rewrite Hhd].
+  - assert (c ∈ conn s) by (apply link_nonempty_conn; [done|done|by rewrite Hhd]).
+    repeat case_decide; simplify_eq; try (by auto).
+  - repeat case_decide; simplify_eq; try (by auto). intros _. apply Hl. by rewrite Hhd.
+  - repeat case_decide; simplify_eq; try (by auto). intros _. apply Hl. by rewrite Hhd.
+  - repeat case_decide; simplify_eq.
+    + intros _. right. set_solver.
+    + intros Hne. destruct (Hl _ _ Hne) as [[? ?]|[? ?]]; [left|right]; set_solver.
+  - case_decide as Hd; [done|]. intros Hne.
+    destruct (Hl _ _ Hne) as [[-> ?]|[-> ?]]; [left|right]; (split; [done|]);
+      apply elem_of_list_filter; (split; [|done]); intros ->; apply Hd; auto.
+Qed.
+
+Lemma mentions_app u q1 q2 : mentions u (q1 ++ q2) <-> mentions u q1 \/ mentions u q2.
+Proof. unfold mentions. set_solver. Qed.
+Lemma mentions_cons u m q : mentions u (m :: q) <-> mentions u [m] \/ mentions u q.
+Proof. unfold mentions. set_solver. Qed.
+Lemma mentions_nil u : ~ mentions u [].
+Proof. unfold mentions. set_solver. Qed.
+Lemma mentions_spawn u v : mentions u [ESpawn v] <-> u = v.
+Proof. unfold mentions. set_solver. Qed.
+Lemma mentions_delete u v : mentions u [EDelete v] <-> u = v.
+Proof. unfold mentions. set_solver. Qed.
+Lemma mentions_req u : ~ mentions u [EReqInit].
+Proof. unfold mentions. set_solver. Qed.
+Lemma mentions_fin u : ~ mentions u [EFinInit].
+Proof. unfold mentions. set_solver. Qed.
+Lemma mentions_fmap u l : mentions u (ESpawn <$> l) <-> u ∈ l.
+Proof. unfold mentions. set_solver. Qed.
+Lemma mentions_snapshot u l : mentions u ((ESpawn <$> l) ++ [EFinInit]) <-> u ∈ l.
+Proof. unfold mentions. set_solver. Qed.
+
+Lemma okq_snoc q m :
+  okq (q ++ [m]) <-> okq q /\ (forall u, m = ESpawn u -> ~ mentions u q).
+Proof.
+  induction q as [|x q IH]; simpl.
+  - split.
+    + intros _. split; [done|]. intros u _. apply mentions_nil.
+    + intros _. split; [|done]. intros u _. set_solver.
+  - rewrite IH. split.
+    + intros (Hx & Hq & Hm). split; [split; [|done]|].
+      * intros u Hu. specialize (Hx u Hu). set_solver.
+      * intros u -> [Hu|Hu]%mentions_cons; [|by eapply Hm].
+        apply (Hx u Hu). set_solver.
+    + intros ((Hx & Hq) & Hm). split; [|split; [done|]].
+      * intros u Hu [Hin|Hin]%elem_of_app; [by eapply Hx|].
+        apply elem_of_list_singleton in Hin. apply (Hm u (eq_sym Hin)). apply mentions_cons. by left.
+      * intros u -> Hu. apply (Hm u eq_refl). apply mentions_cons. by right.
+Qed.
+
+Lemma sinv_used s e s' :
+  sinv s -> step s e = Some s' ->
+  (forall p u, u ∈ get_ents s' p -> u ∈ used s') /\
+  (forall a b u, mentions u (get_link s' a b) -> u ∈ used s').
+Proof.
+  intros Hinv Hstep. pose proof (s_used_e _ Hinv) as Hue. pose proof (s_used_l _ Hinv) as Hul.
+  step_cases Hinv Hstep; rewrite ?Hu.
+  - split.
+    + intros p' v. rewrite HE. case_decide; [|set_solver]. intros [->|?]%elem_of_cons; set_solver.
+    + intros a b v. rewrite HL. repeat case_decide; rewrite ?mentions_app, ?mentions_spawn;
+        intros; destruct_or?; subst; try set_solver; apply elem_of_cons; right; eauto.
+  - split.
+    + intros p' v. rewrite HE. case_decide; [|eauto]. intros ?%remove1_subseteq. eauto.
+    + intros a b v. rewrite HL. repeat case_decide; rewrite ?mentions_app, ?mentions_delete;
+        intros; destruct_or?; subst; eauto.
+  - assert (u ∈ used s).
+    { apply (Hul c 0). rewrite Hhd. apply mentions_cons. left. by apply mentions_spawn. }
+    split.
+    + intros p' v. rewrite HE. case_decide; [|eauto]. intros [->|?]%elem_of_cons; eauto.
+    + intros a b v. rewrite HL. repeat case_decide; rewrite ?mentions_app, ?mentions_spawn;
+        intros; destruct_or?; subst; eauto.
+      apply (Hul c 0). rewrite Hhd. apply mentions_cons. by right.
+  - assert (u ∈ used s).
+    { apply (Hul c 0). rewrite Hhd. apply mentions_cons. left. by apply mentions_delete. }
+    split.
+    + intros p' v. rewrite HE. case_decide; [|eauto]. intros ?%remove1_subseteq. eauto.
+    + intros a b v. rewrite HL. repeat case_decide; rewrite ?mentions_app, ?mentions_delete;
+        intros; destruct_or?; subst; eauto.
+      apply (Hul c 0). rewrite Hhd. apply mentions_cons. by right.
+  - split.
+    + intros p' v. rewrite HE. eauto.
+    + intros a b v. rewrite HL. repeat case_decide; rewrite ?mentions_app, ?mentions_fmap;
+        intros; destruct_or?; simplify_eq; eauto; try (exfalso; by eapply mentions_fin).
+      apply (Hul c 0). rewrite Hhd. apply mentions_cons. by right.
+  - split.
+    + intros p' v. rewrite HE. eauto.
+    + intros a b v. rewrite HL. repeat case_decide; eauto. intros.
+      apply (Hul c 0). rewrite Hhd. apply mentions_cons. by right.
+  - split.
+    + intros p' v. rewrite HE. case_decide; [|eauto]. subst p'.
+      destruct m as [w|w| |]; simpl; eauto.
+      * case_bool_decide; [eauto|]. intros [->|?]%elem_of_cons; [|eauto].
+        apply (Hul 0 c). rewrite Hhd. apply mentions_cons. left. by apply mentions_spawn.
+      * intros ?%remove1_subseteq. eauto.
+    + intros a b v. rewrite HL. repeat case_decide; eauto. intros. simplify_eq.
+      apply (Hul 0 c). rewrite Hhd. apply mentions_cons. by right.
+  - split.
+    + intros p' v. rewrite HE. eauto.
+    + intros a b v. rewrite HL. repeat case_decide; eauto. rewrite mentions_app.
+      intros [?|[]%mentions_req]. eauto.
+  - split.
+    + intros p' v. rewrite HE. eauto.
+    + intros a b v. rewrite HL. repeat case_decide; eauto. intros []%mentions_nil.
+Qed.
+
+Lemma okq_tail m q : okq (m :: q) -> okq q.
+Proof. simpl. tauto. Qed.
+
+Lemma sinv_okq s e s' :
+  sinv s -> step s e = Some s' -> forall c, okq (get_link s' c 0).
+Proof.
+  intros Hinv Hstep. pose proof (s_okq _ Hinv) as Hok. pose proof (s_host _ Hinv) as H0.
+  step_cases Hinv Hstep; intros c'; rewrite HL.
+  - repeat case_decide; simplify_eq; try done; try (exfalso; tauto).
+    apply okq_snoc. split; [done|]. intros ? [= <-] Hm.
+    apply Hfresh. eapply s_used_l; eauto.
+  - repeat case_decide; simplify_eq; try done; try (exfalso; tauto).
+    apply okq_snoc. split; [done|]. intros ? [=].
+  - repeat case_decide; simplify_eq; try done; try (exfalso; tauto).
+    eapply okq_tail. rewrite <- Hhd. done.
+  - repeat case_decide; simplify_eq; try done; try (exfalso; tauto).
+    eapply okq_tail. rewrite <- Hhd. done.
+  - repeat case_decide; simplify_eq; try done.
+    eapply okq_tail. rewrite <- Hhd. done.
+  - repeat case_decide; simplify_eq; try done.
+    eapply okq_tail. rewrite <- Hhd. done.
+  - repeat case_decide; simplify_eq; try done.
+  - repeat case_decide; simplify_eq; try done.
+    apply okq_snoc. split; [done|]. intros ? [=].
+  - repeat case_decide; simplify_eq; try done.
+Qed.
+
+Lemma tail_snoc_not_in {A} (x y : A) (q : list A) : x ∉ tail q -> x <> y -> x ∉ tail (q ++ [y]).
+Proof. destruct q; simpl; set_solver. Qed.
+
+Lemma tail_tail_not_in {A} (x : A) (q : list A) : x ∉ tail q -> x ∉ tail (tail q).
+Proof. destruct q as [|? [|? ?]]; simpl; set_solver. Qed.
+
+Lemma sinv_req s e s' :
+  sinv s -> step s e = Some s' -> forall c, EReqInit ∉ tail (get_link s' c 0).
+Proof.
+  intros Hinv Hstep. pose proof (s_req _ Hinv) as Hr. pose proof (s_host _ Hinv) as H0.
+  assert (Hpop : forall c q m, get_link s c 0 = m :: q -> EReqInit ∉ tail q).
+  { intros c q m Heq. specialize (Hr c). apply tail_tail_not_in in Hr. by rewrite Heq in Hr. }
+  step_cases Hinv Hstep; intros c'; rewrite HL.
+  - repeat case_decide; simplify_eq; try done; try (exfalso; tauto).
+    by apply tail_snoc_not_in.
+  - repeat case_decide; simplify_eq; try done; try (exfalso; tauto).
+    by apply tail_snoc_not_in.
+  - repeat case_decide; simplify_eq; try done; try (exfalso; tauto). eauto.
+  - repeat case_decide; simplify_eq; try done; try (exfalso; tauto). eauto.
+  - repeat case_decide; simplify_eq; try done. eauto.
+  - repeat case_decide; simplify_eq; try done. eauto.
+  - repeat case_decide; simplify_eq; try done.
+  - repeat case_decide; simplify_eq; try done.
+    assert (Hemp : get_link s c 0 = []).
+    { destruct (get_link s c 0) eqn:Heq; [done|]. exfalso. apply Hnc.
+      apply link_nonempty_conn; [done|done|]. by rewrite Heq. }
+    rewrite Hemp. simpl. set_solver.
+  - repeat case_decide; simplify_eq; try done. simpl. set_solver.
+Qed.
+
+Lemma cl_apply_NoDup m l : NoDup l -> NoDup (cl_apply m l).
+Proof.
+  intros Hnd. destruct m as [u|u| |]; simpl; try done.
+  - case_bool_decide; [done|]. by apply NoDup_cons.
+  - by apply remove1_NoDup.
+Qed.
+
+Lemma sinv_nd_ents s e s' :
+  sinv s -> step s e = Some s' -> forall p, NoDup (get_ents s' p).
+Proof.
+  intros Hinv Hstep. pose proof (s_nd_ents _ Hinv) as Hnd.
+  step_cases Hinv Hstep; intros p'; rewrite HE; try done.
+  - case_decide; [|done]. apply NoDup_cons. split; [|done].
+    intros Hin. apply Hfresh. eapply s_used_e; eauto.
+  - case_decide; [|done]. by apply remove1_NoDup.
+  - case_decide; [|done]. apply NoDup_cons. split; [|done].
+    assert (Hsp : ESpawn u ∈ get_link s c 0) by (rewrite Hhd; set_solver).
+    destruct (s_pa _ Hinv _ _ Hsp) as (? & _). done.
+  - case_decide; [|done]. by apply remove1_NoDup.
+  - case_decide; [|done]. by apply cl_apply_NoDup.
+Qed.
+
+Lemma elem_of_snoc {A} (x y : A) (l : list A) : x ∈ l ++ [y] <-> x ∈ l \/ x = y.
+Proof. set_solver. Qed.
+
+Lemma cl_apply_elem_inv w m l : w ∈ cl_apply m l -> w ∈ l \/ m = ESpawn w.
+Proof.
+  destruct m as [u|u| |]; simpl; auto.
+  - case_bool_decide; [auto|]. intros [->|?]%elem_of_cons; auto.
+  - intros ?%remove1_subseteq. auto.
+Qed.
+
+Lemma cl_apply_elem_keep w m l : w ∈ l -> m <> EDelete w -> w ∈ cl_apply m l.
+Proof.
+  intros Hin Hm. destruct m as [u|u| |]; simpl; auto.
+  - case_bool_decide; set_solver.
+  - apply remove1_other; [done|]. intros ->. done.
+Qed.
+
+Lemma sinv_pa s e s' :
+  sinv s -> step s e = Some s' -> forall o w, ESpawn w ∈ get_link s' o 0 -> pa s' o w.
+Proof.
+  intros Hinv Hstep. pose proof (s_host _ Hinv) as H0. pose proof (link00 _ Hinv) as H00.
+  step_cases Hinv Hstep; intros o w Hsp; rewrite HL in Hsp.
+  - (* spawn *)
+    assert (Hnm : forall a b, ~ mentions u (get_link s a b)).
+    { intros a b Hm. apply Hfresh. eapply s_used_l; eauto. }
+    assert (Hne : forall p', u ∉ get_ents s p').
+    { intros p' Hm. apply Hfresh. eapply s_used_e; eauto. }
+    assert (Hcase : (w = u /\ o = p /\ p <> 0) \/ ESpawn w ∈ get_link s o 0).
+    { repeat case_decide; simplify_eq; try (by right); try (exfalso; tauto).
+      apply elem_of_snoc in Hsp as [?|[= ->]]; [by right|by left]. }
+    clear Hsp. destruct Hcase as [(-> & -> & Hp)|Hold].
+    + split_and!.
+      * rewrite HE. case_decide; [done|]. apply Hne.
+      * intros c. rewrite HL. repeat case_decide; simplify_eq. apply Hnm.
+      * intros c Hcp. rewrite HE, HL. repeat case_decide; simplify_eq. split; [apply Hne|apply Hnm].
+      * left. rewrite HE. case_decide; [|done]. set_solver.
+    + assert (Hwu : w <> u).
+      { intros ->. apply (Hnm o 0). by left. }
+      destruct (s_pa _ Hinv _ _ Hold) as (P1 & P2 & P3 & P4). split_and!.
+      * rewrite HE. case_decide; simplify_eq; [|done]. set_solver.
+      * intros c. rewrite HL. specialize (P2 c).
+        repeat case_decide; simplify_eq; rewrite ?mentions_app, ?mentions_spawn; tauto.
+      * intros c Hco. destruct (P3 c Hco) as [P3a P3b]. rewrite HE, HL.
+        repeat case_decide; simplify_eq; rewrite ?mentions_app, ?mentions_spawn;
+          (split; [set_solver|tauto]).
+      * rewrite HE, HL. destruct P4 as [P4|P4]; [left|right];
+          repeat case_decide; simplify_eq; set_solver.
+  - (* despawn *)
+    assert (Hold : ESpawn w ∈ get_link s o 0).
+    { repeat case_decide; simplify_eq; try done; apply elem_of_snoc in Hsp as [?|[=]]; done. }
+    destruct (s_pa _ Hinv _ _ Hold) as (P1 & P2 & P3 & P4).
+    assert (Hwu : w = u -> p = o).
+    { intros ->. destruct (decide (p = o)) as [|Hpo]; [done|]. by destruct (P3 p Hpo). }
+    clear Hsp. split_and!.
+    + rewrite HE. case_decide; [|done]. intros ?%remove1_subseteq; simplify_eq; done.
+    + intros c. rewrite HL. specialize (P2 c).
+      repeat case_decide; simplify_eq; rewrite ?mentions_app, ?mentions_delete; try tauto.
+      intros [?| ->]; [tauto|]. done.
+    + intros c Hco. destruct (P3 c Hco) as [P3a P3b]. rewrite HE, HL. split.
+      * case_decide; [|done]. intros ?%remove1_subseteq; simplify_eq; done.
+      * repeat case_decide; simplify_eq; rewrite ?mentions_app, ?mentions_delete; try tauto.
+    + rewrite HE, HL. destruct P4 as [P4|P4].
+      * destruct (decide (w = u)) as [->|Hne].
+        -- specialize (Hwu eq_refl). subst o. right.
+           repeat case_decide; simplify_eq; try set_solver.
+        -- left. case_decide; [|done]. subst. by apply remove1_other.
+      * right. repeat case_decide; simplify_eq; set_solver.
+  - (* host receives ESpawn u from c *)
+    assert (Hq : forall m, m ∈ q -> m ∈ get_link s c 0) by (rewrite Hhd; set_solver).
+    assert (Hold : ESpawn w ∈ get_link s o 0).
+    { repeat case_decide; simplify_eq; try done; try (exfalso; tauto). by apply Hq. }
+    assert (Hhead : ESpawn u ∈ get_link s c 0) by (rewrite Hhd; set_solver).
+    destruct (s_pa _ Hinv _ _ Hhead) as (Q1 & Q2 & Q3 & Q4).
+    destruct (s_pa _ Hinv _ _ Hold) as (P1 & P2 & P3 & P4).
+    assert (Hwu : w <> u).
+    { intros ->. destruct (decide (o = c)) as [->|Hoc].
+      - pose proof (s_okq _ Hinv c) as Hok. rewrite Hhd in Hok. destruct Hok as [Hok _].
+        apply (Hok u); [apply mentions_spawn; done|].
+        repeat case_decide; simplify_eq; done.
+      - destruct (Q3 o Hoc) as [_ Q3b]. apply Q3b. by left. }
+    clear Hsp. split_and!.
+    + rewrite HE. case_decide; [|done]. set_solver.
+    + intros c'. rewrite HL. specialize (P2 c').
+      repeat case_decide; simplify_eq; rewrite ?mentions_app, ?mentions_spawn; tauto.
+    + intros c' Hco. destruct (P3 c' Hco) as [P3a P3b]. rewrite HE, HL. split.
+      * case_decide; simplify_eq; set_solver.
+      * repeat case_decide; simplify_eq; try done; try (exfalso; tauto).
+        intros [?|?]; apply P3b; [left|right]; by apply Hq.
+    + rewrite HE, HL. destruct P4 as [P4|P4].
+      * left. case_decide; simplify_eq; set_solver.
+      * right. repeat case_decide; simplify_eq; try done; try (exfalso; tauto).
+        rewrite Hhd in P4. set_solver.
+  - (* host receives EDelete u from c *)
+    assert (Hq : forall m, m ∈ q -> m ∈ get_link s c 0) by (rewrite Hhd; set_solver).
+    assert (Hold : ESpawn w ∈ get_link s o 0).
+    { repeat case_decide; simplify_eq; try done; try (exfalso; tauto). by apply Hq. }
+    destruct (s_pa _ Hinv _ _ Hold) as (P1 & P2 & P3 & P4).
+    assert (Hwu : w <> u).
+    { intros ->. destruct (decide (o = c)) as [->|Hoc].
+      - pose proof (s_okq _ Hinv c) as Hok. rewrite Hhd in Hok. destruct Hok as [Hok _].
+        apply (Hok u); [apply mentions_delete; done|].
+        repeat case_decide; simplify_eq; done.
+      - assert (Hco : c <> o) by done. destruct (P3 c Hco) as [_ P3b]. apply P3b. right.
+        rewrite Hhd. set_solver. }
+    clear Hsp. split_and!.
+    + rewrite HE. case_decide; [|done]. intros ?%remove1_subseteq. done.
+    + intros c'. rewrite HL. specialize (P2 c').
+      repeat case_decide; simplify_eq; rewrite ?mentions_app, ?mentions_delete; tauto.
+    + intros c' Hco. destruct (P3 c' Hco) as [P3a P3b]. rewrite HE, HL. split.
+      * case_decide; simplify_eq; [|done]. intros ?%remove1_subseteq. done.
+      * repeat case_decide; simplify_eq; try done; try (exfalso; tauto).
+        intros [?|?]; apply P3b; [left|right]; by apply Hq.
+    + rewrite HE, HL. destruct P4 as [P4|P4].
+      * left. case_decide; simplify_eq; done.
+      * right. repeat case_decide; simplify_eq; try done; try (exfalso; tauto).
+        rewrite Hhd in P4. set_solver.
+  - (* host receives EReqInit from c *)
+    assert (Hq : forall m, m ∈ q -> m ∈ get_link s c 0) by (rewrite Hhd; set_solver).
+    assert (Hold : ESpawn w ∈ get_link s o 0).
+    { repeat case_decide; simplify_eq; try done. by apply Hq. }
+    destruct (s_pa _ Hinv _ _ Hold) as (P1 & P2 & P3 & P4).
+    clear Hsp. split_and!.
+    + by rewrite HE.
+    + intros c'. rewrite HL. specialize (P2 c').
+      repeat case_decide; simplify_eq; rewrite ?mentions_app, ?mentions_fmap; try tauto.
+      intros [?|[?|[]%mentions_fin]]; tauto.
+    + intros c' Hco. destruct (P3 c' Hco) as [P3a P3b]. rewrite HE, HL. split; [done|].
+      repeat case_decide; simplify_eq; try done.
+      intros [?|?]; apply P3b; [left|right]; by apply Hq.
+    + rewrite HE, HL. destruct P4 as [P4|P4]; [by left|].
+      right. repeat case_decide; simplify_eq; try done.
+      rewrite Hhd in P4. set_solver.
+  - (* host receives EFinInit from c *)
+    assert (Hq : forall m, m ∈ q -> m ∈ get_link s c 0) by (rewrite Hhd; set_solver).
+    assert (Hold : ESpawn w ∈ get_link s o 0).
+    { repeat case_decide; simplify_eq; try done. by apply Hq. }
+    destruct (s_pa _ Hinv _ _ Hold) as (P1 & P2 & P3 & P4).
+    clear Hsp. split_and!.
+    + by rewrite HE.
+    + intros c'. rewrite HL. specialize (P2 c').
+      repeat case_decide; simplify_eq; tauto.
+    + intros c' Hco. destruct (P3 c' Hco) as [P3a P3b]. rewrite HE, HL. split; [done|].
+      repeat case_decide; simplify_eq; try done.
+      intros [?|?]; apply P3b; [left|right]; by apply Hq.
+    + rewrite HE, HL. destruct P4 as [P4|P4]; [by left|].
+      right. repeat case_decide; simplify_eq; try done.
+      rewrite Hhd in P4. set_solver.
+  - (* client c handles m *)
+    assert (Hq : forall m', m' ∈ q -> m' ∈ get_link s 0 c) by (rewrite Hhd; set_solver).
+    assert (Hold : ESpawn w ∈ get_link s o 0).
+    { repeat case_decide; simplify_eq; done. }
+    destruct (s_pa _ Hinv _ _ Hold) as (P1 & P2 & P3 & P4).
+    assert (Hm1 : m <> ESpawn w).
+    { intros ->. apply (P2 c). left. rewrite Hhd. set_solver. }
+    assert (Hm2 : m <> EDelete w).
+    { intros ->. apply (P2 c). right. rewrite Hhd. set_solver. }
+    clear Hsp. split_and!.
+    + rewrite HE. case_decide; simplify_eq. done.
+    + intros c'. rewrite HL. specialize (P2 c').
+      repeat case_decide; simplify_eq; try tauto.
+      intros [?|?]; apply P2; [left|right]; by apply Hq.
+    + intros c' Hco. destruct (P3 c' Hco) as [P3a P3b]. rewrite HE, HL. split.
+      * case_decide; simplify_eq; [|done]. intros [?|?]%cl_apply_elem_inv; done.
+      * repeat case_decide; simplify_eq; done.
+    + rewrite HE, HL. destruct P4 as [P4|P4].
+      * left. case_decide; simplify_eq; [|done]. by apply cl_apply_elem_keep.
+      * right. repeat case_decide; simplify_eq; done.
+  - (* connect *)
+    assert (Hold : ESpawn w ∈ get_link s o 0).
+    { repeat case_decide; simplify_eq; try done. apply elem_of_snoc in Hsp as [?|[=]]; done. }
+    destruct (s_pa _ Hinv _ _ Hold) as (P1 & P2 & P3 & P4).
+    clear Hsp. split_and!.
+    + by rewrite HE.
+    + intros c'. rewrite HL. specialize (P2 c').
+      repeat case_decide; simplify_eq; tauto.
+    + intros c' Hco. destruct (P3 c' Hco) as [P3a P3b]. rewrite HE, HL. split; [done|].
+      repeat case_decide; simplify_eq; try done. rewrite mentions_app.
+      intros [?|[]%mentions_req]. done.
+    + rewrite HE, HL. destruct P4 as [P4|P4]; [by left|].
+      right. repeat case_decide; simplify_eq; set_solver.
+  - (* leave *)
+    assert (Hold : ESpawn w ∈ get_link s o 0 /\ ~ ((o, 0) = (0, c) \/ (o, 0) = (c, 0))).
+    { case_decide; [set_solver|done]. }
+    destruct Hold as [Hold Hnd].
+    destruct (s_pa _ Hinv _ _ Hold) as (P1 & P2 & P3 & P4).
+    clear Hsp. split_and!.
+    + by rewrite HE.
+    + intros c'. rewrite HL. specialize (P2 c').
+      repeat case_decide; simplify_eq; [apply mentions_nil|tauto].
+    + intros c' Hco. destruct (P3 c' Hco) as [P3a P3b]. rewrite HE, HL. split; [done|].
+      repeat case_decide; simplify_eq; [apply mentions_nil|done].
+    + rewrite HE, HL. destruct P4 as [P4|P4]; [by left|].
+      right. case_decide; [tauto|done].
+Qed.
+
+Lemma sinv_step s e s' : sinv s -> step s e = Some s' -> sinv s'.
+Proof.
+  intros Hinv Hstep.
+  destruct (sinv_tables _ _ _ Hinv Hstep) as (? & ? & ?).
+  destruct (sinv_used _ _ _ Hinv Hstep) as (? & ?).
+  constructor; try done.
+  - by eapply sinv_links.
+  - by eapply sinv_nd_ents.
+  - by eapply sinv_okq.
+  - by eapply sinv_req.
+  - by eapply sinv_pa.
+Qed.
+
+Lemma get_link_init a b : get_link init a b = [].
+Proof. reflexivity. Qed.
+Lemma get_ents_init p : get_ents init p = [].
+Proof. reflexivity. Qed.
+
+Lemma sinv_init : sinv init.
+Proof.
+  constructor; simpl.
+  - apply NoDup_nil_2.
+  - set_solver.
+  - set_solver.
+  - intros a b Hne. by rewrite get_link_init in Hne.
+  - intros p u Hin. rewrite get_ents_init in Hin. set_solver.
+  - intros a b u Hm. rewrite get_link_init in Hm. by apply mentions_nil in Hm.
+  - intros p. rewrite get_ents_init. apply NoDup_nil_2.
+  - intros c. by rewrite get_link_init.
+  - intros c. rewrite get_link_init. simpl. set_solver.
+  - intros o u Hsp. rewrite get_link_init in Hsp. set_solver.
+Qed.
+
+Lemma run_app s tr1 tr2 :
+  run s (tr1 ++ tr2) = match run s tr1 with Some s1 => run s1 tr2 | None => None end.
+Proof.
+  revert s. induction tr1 as [|e tr1 IH]; intros s; simpl; [done|].
+  destruct (step s e); [apply IH|done].
+Qed.
+
+Lemma run_snoc s tr e :
+  run s (tr ++ [e]) = match run s tr with Some s1 => step s1 e | None => None end.
+Proof.
+  rewrite run_app. destruct (run s tr) as [s1|]; [|done]. simpl. by destruct (step s1 e).
+Qed.
+
+Lemma sinv_run s tr s' : sinv s -> run s tr = Some s' -> sinv s'.
+Proof.
+  revert s. induction tr as [|e tr IH]; intros s Hinv; simpl.
+  - by intros [= <-].
+  - destruct (step s e) as [s1|] eqn:Hstep; [|done]. intros Hrun.
+    eapply IH; [|done]. by eapply sinv_step.
+Qed.
+
+Lemma sinv_reachable tr s : run init tr = Some s -> sinv s.
+Proof. apply sinv_run, sinv_init. Qed.
+
+(* UNIQUENESS: on every run, whatever the interleaving / joins / departures (and also inside the
+   known defect classes), no peer ever holds two entities with the same uuid.  In particular the
+   host, which has no duplicate guard, never receives an ESpawn for a uuid it already holds. *)
+Theorem entities_unique tr s :
+  run init tr = Some s -> forall p, NoDup (get_ents s p).
+Proof. intros Hrun. apply s_nd_ents. by eapply sinv_reachable. Qed.
+
+Theorem host_never_receives_duplicate tr s c u q :
+  run init tr = Some s -> get_link s c 0 = ESpawn u :: q ->
+  u ∉ get_ents s 0 /\ ESpawn u ∉ q.
+Proof.
+  intros Hrun Hhd. pose proof (sinv_reachable _ _ Hrun) as Hinv.
+  assert (Hsp : ESpawn u ∈ get_link s c 0) by (rewrite Hhd; set_solver).
+  destruct (s_pa _ Hinv _ _ Hsp) as (? & _). split; [done|].
+  pose proof (s_okq _ Hinv c) as Hok. rewrite Hhd in Hok. destruct Hok as [Hok _].
+  apply Hok. by apply mentions_spawn.
+Qed.
+
+Print Assumptions entities_unique.
+Print Assumptions host_never_receives_duplicate.
+
+(* ================================================================================================
+   5. Boolean observers; the unrestricted C01 statement is FALSE: refutations
+   ================================================================================================ *)
+
+Lemma same_set_spec l1 l2 : same_set l1 l2 = true <-> (forall u, u ∈ l1 <-> u ∈ l2).
+Proof.
+  unfold same_set. rewrite andb_true_iff, !forallb_forall.
+  setoid_rewrite bool_decide_eq_true. setoid_rewrite <- elem_of_list_In. naive_solver.
+Qed.
+
+Lemma agreeb_spec s : agreeb s = true <-> agree s.
+Proof.
+  unfold agreeb, agree. rewrite andb_true_iff, bool_decide_eq_true, forallb_forall.
+  setoid_rewrite <- elem_of_list_In. split.
+  - intros [Hnd Hall]. split; [done|]. intros c Hc Hs. specialize (Hall c Hc).
+    rewrite bool_decide_eq_true_2 in Hall by done.
+    apply andb_true_iff in Hall as [Hn Hsame]. apply bool_decide_eq_true in Hn.
+    split; [done|]. by apply same_set_spec.
+  - intros [Hnd Hall]. split; [done|]. intros c Hc. case_bool_decide as Hs; [|done].
+    destruct (Hall c Hc Hs) as [Hn Hsame].
+    apply andb_true_iff. split; [by apply bool_decide_eq_true|by apply same_set_spec].
+Qed.
+
+Lemma quiescentb_spec s : quiescentb s = true <-> quiescent s.
+Proof.
+  unfold quiescentb, quiescent. rewrite forallb_forall. setoid_rewrite <- elem_of_list_In. split.
+  - intros Hall a b. unfold get_link. destruct (links s !! (a, b)) as [q|] eqn:Hl; [|done].
+    apply elem_of_map_to_list in Hl. specialize (Hall _ Hl). simpl in *. by destruct q.
+  - intros Hq [[a b] q] Hin. apply elem_of_map_to_list in Hin. specialize (Hq a b).
+    unfold get_link in Hq. rewrite Hin in Hq. simpl in *. by subst q.
+Qed.
+
+Definition C01_unrestricted_statement : Prop :=
+  forall tr s, run init tr = Some s -> quiescent s -> agree s.
+
+Lemma refute_by_run tr :
+  match run init tr with Some s => quiescentb s && negb (agreeb s) | None => false end = true ->
+  exists tr s, run init tr = Some s /\ quiescent s /\ ~ agree s.
+Proof.
+  destruct (run init tr) as [s|] eqn:Hrun; [|done]. intros [Hq Ha]%andb_true_iff.
+  exists tr, s. split; [done|]. split; [by apply quiescentb_spec|].
+  rewrite <- agreeb_spec. by destruct (agreeb s).
+Qed.
+
+(* S11: client 1 leaves, the host despawns 10 meanwhile, 1 comes back: the snapshot carries no
+   deletion, 1 keeps its stale replica. *)
+Definition witness_S11 : list event :=
+  [EvConnect 1; EvDeliver 1 0; EvDeliver 0 1; EvSpawn 0 10; EvDeliver 0 1;
+   EvLeave 1; EvDespawn 0 10; EvConnect 1; EvDeliver 1 0; EvDeliver 0 1].
+
+(* S11, second face: 1 leaves while its own ESpawn 10 is still in flight; the announcement is
+   dropped and never repeated after the reconnection: the host never learns about 10. *)
+Definition witness_S11_lost_spawn : list event :=
+  [EvConnect 1; EvDeliver 1 0; EvDeliver 0 1; EvSpawn 1 10;
+   EvLeave 1; EvConnect 1; EvDeliver 1 0; EvDeliver 0 1].
+
+(* S18: 1 gets 10 live while its InitialSync request is still travelling; the snapshot then
+   contains 10 again; 1 despawns its replica before the snapshot arrives: the duplicate ESpawn
+   re-creates 10 on client 1 only (the host deletes 10 and does not echo the EDelete to 1). *)
+Definition witness_S18 : list event :=
+  [EvConnect 1; EvSpawn 0 10; EvDeliver 0 1; EvDeliver 1 0; EvDespawn 1 10;
+   EvDeliver 0 1; EvDeliver 0 1; EvDeliver 1 0].
+
+(* S18, second face: the despawn happens BEFORE the host builds the snapshot (which will contain
+   10 because the EDelete is behind the EReqInit on the same link). *)
+Definition witness_S18_pending : list event :=
+  [EvConnect 1; EvSpawn 0 10; EvDeliver 0 1; EvDespawn 1 10; EvDeliver 1 0; EvDeliver 1 0;
+   EvDeliver 0 1; EvDeliver 0 1].
+
+Theorem C01_refuted_S11 : exists tr s, run init tr = Some s /\ quiescent s /\ ~ agree s.
+Proof. apply (refute_by_run witness_S11). vm_compute. reflexivity. Qed.
+
+Theorem C01_refuted_S11_lost_spawn : exists tr s, run init tr = Some s /\ quiescent s /\ ~ agree s.
+Proof. apply (refute_by_run witness_S11_lost_spawn). vm_compute. reflexivity. Qed.
+
+Theorem C01_refuted_S18 : exists tr s, run init tr = Some s /\ quiescent s /\ ~ agree s.
+Proof. apply (refute_by_run witness_S18). vm_compute. reflexivity. Qed.
+
+Theorem C01_refuted_S18_pending : exists tr s, run init tr = Some s /\ quiescent s /\ ~ agree s.
+Proof. apply (refute_by_run witness_S18_pending). vm_compute. reflexivity. Qed.
+
+Corollary C01_unrestricted_is_false : ~ C01_unrestricted_statement.
+Proof.
+  intros Hall. destruct C01_refuted_S18 as (tr & s & Hrun & Hq & Hn). apply Hn. by eapply Hall.
+Qed.
+
+(* each witness lies in exactly its own class; what the stale client holds *)
+Example witnesses_classified :
+  (known_S11 witness_S11, known_S18 witness_S11,
+   known_S11 witness_S11_lost_spawn, known_S18 witness_S11_lost_spawn,
+   known_S11 witness_S18, known_S18 witness_S18, known_S18_window witness_S18,
+   known_S11 witness_S18_pending, known_S18 witness_S18_pending)
+  = (true, false, true, false, false, true, true, false, true).
+Proof. vm_compute. reflexivity. Qed.
+
+Example witnesses_final_views :
+  ((fun s => (get_ents s 0, get_ents s 1)) <$> run init witness_S11,
+   (fun s => (get_ents s 0, get_ents s 1)) <$> run init witness_S11_lost_spawn,
+   (fun s => (get_ents s 0, get_ents s 1)) <$> run init witness_S18,
+   (fun s => (get_ents s 0, get_ents s 1)) <$> run init witness_S18_pending)
+  = (Some ([], [10]), Some ([], [10]), Some ([], [10]), Some ([], [10])).
+Proof. vm_compute. reflexivity. Qed.
+
+(* Suspected but NOT defects.  (a) Two peers despawn the same uuid concurrently: idempotent. *)
+Example concurrent_despawn_converges :
+  (fun s => (get_ents s 0, get_ents s 1, get_ents s 2, quiescentb s, agreeb s)) <$>
+  run init [EvConnect 1; EvConnect 2; EvDeliver 1 0; EvDeliver 2 0; EvDeliver 0 1; EvDeliver 0 2;
+            EvSpawn 0 10; EvSpawn 0 11; EvDeliver 0 1; EvDeliver 0 1; EvDeliver 0 2; EvDeliver 0 2;
+            EvDespawn 1 10; EvDespawn 2 10; EvDespawn 0 10;
+            EvDeliver 1 0; EvDeliver 2 0; EvDeliver 0 1; EvDeliver 0 1; EvDeliver 0 2; EvDeliver 0 2]
+  = Some ([11], [11], [11], true, true).
+Proof. vm_compute. reflexivity. Qed.
+
+(* (b) The host cannot despawn an entity whose ESpawn from a client is still in flight: it does
+   not hold it yet (and no other client does). *)
+Theorem no_despawn_of_inflight_spawn tr s c u p :
+  run init tr = Some s -> ESpawn u ∈ get_link s c 0 -> p <> c -> step s (EvDespawn p u) = None.
+Proof.
+  intros Hrun Hsp Hpc. pose proof (sinv_reachable _ _ Hrun) as Hinv.
+  destruct (s_pa _ Hinv _ _ Hsp) as (_ & _ & P3 & _). destruct (P3 p Hpc) as [Hnot _].
+  simpl. rewrite (bool_decide_eq_false_2 _ Hnot). by rewrite andb_false_r.
+Qed.
+
+Print Assumptions C01_refuted_S11.
+Print Assumptions C01_refuted_S18.
+Print Assumptions C01_refuted_S18_pending.
